@@ -4,8 +4,8 @@
 EXTENDS Raster, Json, IOUtils
 
 Rec == ndJsonDeserialize(IOEnv.TRACE)
-Judged == {k \in DOMAIN Rec : Rec[k].c05 = 1}
-Bad == {k \in Judged : ~FragAllowed(Rec[k])}
+Judged == {k \in DOMAIN Rec : Rec[k].c05 \in {1, 2}}
+Bad == {k \in Judged : IF Rec[k].c05 = 1 THEN ~FragAllowed(Rec[k]) ELSE ~FragPosAllowed(Rec[k])}
 NFrag == LET f[k \in 0..Len(Rec)] ==
                IF k = 0 THEN 0
                ELSE f[k - 1] + (IF k \in Judged
